@@ -228,7 +228,14 @@ def check_runner_fields(rep: Report, prog: Program) -> None:
                     invoked = e
                     av = current_local(p, e, "attempts")
                     rep.instance("R11.3", f"{name}|at-invocation|{show(av)}")
-                    if is_attempt_no(av, p):
+                    # ... and nothing that can raise (a hook, the abort poll) lies between counting the attempt and
+                    # invoking the operation: `attempts` counts invocations, not intentions
+                    idx_inv = p.index_of(e)
+                    idx_set = max((i for i, it2 in enumerate(p.items[:idx_inv]) if it2[0] == "ev" and it2[1].kind == "lstore" and it2[1].loc == ("local", "attempts")), default=-1)
+                    between = [it2[1] for it2 in p.items[idx_set + 1 : idx_inv] if it2[0] == "ev" and it2[1].kind in ("call", "await") and not (it2[1].kind == "call" and it2[1].pure)]
+                    if is_attempt_no(av, p) and between:
+                        rep.fail("R11.3", f"{name}|attempts-before|{between[0].label[:40]}", f"{q}: `attempts` is advanced before `{between[0].label}`; if that raises, the outcome counts an attempt whose operation was never invoked", where=f"{fi.module.relpath}:{between[0].lineno}", function=q, path=p.describe())
+                    elif is_attempt_no(av, p):
                         rep.ok("R11.3")
                     else:
                         rep.fail("R11.3", f"{name}|attempts-at-invocation", f"{q}: when the operation is invoked `attempts` is {show(av)}, not the loop variable (an attempt that raises would not be counted)", where=f"{fi.module.relpath}:{e.lineno}", function=q, path=p.describe())
